@@ -7,11 +7,11 @@ FAMILY = "javafull"
 GEN_GROUPS = ["JavaFull", "Ident"]
 
 PKGS = ["com.shop.order", "com.shop.user", "com.shop"]
-CLASSES = ["Order", "OrderService", "User", "UserRepo", "Item", "Helper", "MyOrder"]
+CLASSES = ["Order", "OrderService", "User", "UserRepo", "Item", "Helper", "MyOrder", "A", "AbstractTransactionalOrderProcessingStrategyFactoryBeanÉ"]
 EXTERNAL = [("java.util", "List"), ("java.util", "ArrayList"), ("org.lib", "Tool"), ("org.lib.deep", "Order")]
 PRIMS = ["int", "long", "boolean", "String"]
-METHODS = ["run", "save", "find", "getName", "process", "of", "build"]
-VARS = ["order", "user", "repo", "item", "x", "svc", "tool"]
+METHODS = ["run", "save", "find", "getName", "process", "of", "build", "f", "recalculateOutstandingBalanceForAllCustomersInRegionÜ"]
+VARS = ["order", "user", "repo", "item", "x", "svc", "tool", "aVeryLongLocalVariableNameThatGoesOnAndOn_1"]
 SCOPED, FIELDS = "<scoped>", "<fields>"
 
 
@@ -119,15 +119,29 @@ def gen_project(rng):
                 for _ in range(rng.choice([0, 1, 2, 3, 5])):
                     body.append(gen_stmt(rng, env, use, others, nm, depth=0))
                 if not is_ctor and rng.random() < 0.5:
-                    body.append(("return", rng.choice([("lit", "null"), ("name", "x"), None]) if True else None))
+                    body.append(("return", rng.choice([("lit", "null"), ("name", "x"), None, gen_expr_call(rng, env, use, others, nm, 1)])))
             annos = []
             if rng.random() < 0.2:
                 annos.append({"name": "Override", "args": None})
             if rng.random() < 0.15:
                 annos.append({"name": "Deprecated", "args": None})
             ret = "" if is_ctor else ((use(pick_type(rng, others)) or "void") if rng.random() < 0.8 else "void")
+            tparams = None
+            if kind == "class" and not is_ctor and rng.random() < 0.15:
+                # a generic class method: `<T> T first(List<T> xs)`, `<K, V> V lookup(K k, V v)`
+                tparams = rng.choice([["T"], ["T"], ["K", "V"], ["E extends Comparable<E>"]])
+                tv = tparams[-1].split(" ")[0]
+                if rng.random() < 0.6:
+                    ret = tv
+                if rng.random() < 0.6:
+                    pn = rng.choice([v for v in VARS if v not in pnames] or ["gx"])
+                    # the body was generated without this parameter: only add it when the body does not mention the name at all
+                    if pn not in pnames and pn not in env[SCOPED] and pn not in env and ("'%s'" % pn) not in repr(body):
+                        pnames.add(pn)
+                        params.append({"type": rng.choice([tv, "List<%s>" % tv, tv + "[]"]), "name": pn, "decl": None})
+                        env[pn] = None
             members.append({"kind": "ctor" if is_ctor else "method", "annos": annos if not is_ctor else [], "mods": ["public"] if kind == "class" else [],
-                            "ret": ret, "name": mname, "params": params, "body": body,
+                            "ret": ret, "name": mname, "params": params, "body": body, "tparams": tparams,
                             "pre_nl": rng.choice([1, 2]), "annos_same_line": rng.random() < 0.2, "_env": None})
         class_annos = []
         if rng.random() < 0.3:
@@ -216,6 +230,8 @@ def gen_stmt(rng, env, use, others, cls, depth):
     if r < 0.9 and names(env):
         v = rng.choice(names(env))
         if env[v] and env[v] not in PRIMS:
+            if rng.random() < 0.4:
+                return ("expr", ("assign", v, gen_expr_call(rng, env, use, others, cls, 1)))     # v = a.b();
             return ("expr", ("assign", v, ("new", env[v], [])))      # type-correct: the declared type itself
     if r < 0.95:
         return ("expr", ("call", ("name", "list"), "forEach", [("lambda", ["e"], gen_expr_call(rng, env, use, others, cls, 1))]))
